@@ -786,7 +786,7 @@ def check_c02(tier, seed):
             'until the dispatcher step that runs it (ctx = dispatcher thread), MTS requires out-events queue a copy and return '
             'at once, STS events run on the caller\'s thread and never touch the queue; accessor types (Sts<I>/Mts<I>) are '
             'static_asserts generated from the routing table, identity of the accessor port with the component\'s own port '
-            'is probed.')
+            'is probed. 40% of the scripts tie port objects of their own to the boundary ports with ConnectPorts and talk through those; StrictPort.tla decides every ConnectPorts call over Sts/Mts values of two copies of the support file (static_asserts on SFINAE detectors); AddressSanitizer/UBSan twins.')
     chk, traces = generic_check('C02', tier, seed, 'events', rule, 24 if tier == 'quick' else 160, 6 if tier == 'quick' else 10,
                                 40 if tier == 'quick' else 80)
     sanitizer_after(chk, traces, tier, seed)
@@ -800,7 +800,7 @@ def check_c09(tier, seed):
             'constructed (both origins over the program set); the driver reports exception type, identity of the locator, '
             'pump and runtime the mock component received, the number of services, whether the user\'s locator changed, '
             'presence of Locator() (SFINAE) and its identity; after a successful construction events are pushed through '
-            'every mechanism so that MTS events must go through that very dispatcher.')
+            'every mechanism so that MTS events must go through that very dispatcher. After a good construction the shell is destroyed: the user\'s dispatcher must still be running.')
     chk, _ = generic_check('C09', tier, seed, 'facilities', rule, 24 if tier == 'quick' else 160, 1 if tier == 'quick' else 2, 0)
     return chk.finish()
 
@@ -809,7 +809,7 @@ def check_c10(tier, seed):
     rule = ('for every compiled program: everything bound, exactly one required user-side binding missing (any exposed port, '
             'direction, registered client), one handler of the wrapped component missing, then final construction; '
             'afterwards the missing binding is supplied and final construction repeated; registration of a new client after '
-            'final construction must fail. ShellRuntime.tla prescribes Ok/binding_error/runtime_error and the parent meta.')
+            'final construction must fail. ShellRuntime.tla prescribes Ok/binding_error/runtime_error and the parent meta. 0-2 clients in random registration order; traces are validated against the rule the property states first, the ones only the shipped rule of known finding R explains are its occurrences.')
     chk, traces = generic_check('C10', tier, seed, 'bindings', rule, 24 if tier == 'quick' else 160, 8 if tier == 'quick' else 16, 0)
     return chk.finish()
 
